@@ -4,7 +4,7 @@ From Coq Require Import List ZArith Bool.
 From V Require Import Gen.Params Lib.Hex
      AmpToken.AmpModel AmpToken.AmpProofs AmpToken.TokenModel AmpToken.TokenProofs.
 From V Require SentPH.Model SentPH.ProofsScalars AmpToken.AmpFull.
-From V Require Import AmpToken.StatelessModel AmpToken.StatelessProofs.
+From V Require Import AmpToken.StatelessModel AmpToken.StatelessProofs AmpToken.WireModel AmpToken.WireProofs.
 Import ListNotations.
 Open Scope Z_scope.
 
@@ -150,6 +150,24 @@ Example C14_close_regression :
 Proof. exact close_example_run. Qed.
 Print Assumptions C14_close_regression.
 
+(** The property at the wire.  [wire_ok] is the predicate an observer between client and server checks
+    (every datagram towards an unvalidated address starts at or under 3x what arrived); it is what the
+    `ampconn` unit replays on the traces of real connections.  Every wire trace of every history of the
+    connection-level model (gated sends, close, retransmissions of the close) satisfies it. *)
+Theorem C14_wire_trace_ok : forall validated0 pto ops,
+  Forall wf_cop ops -> wire_ok (WS 0 0 validated0) (ctrace_ev (cinit validated0 pto) ops) = true.
+Proof. exact wire_trace_ok. Qed.
+Print Assumptions C14_wire_trace_ok.
+
+Example C14_wire_ok_nonvacuous :
+  wire_ok (WS 0 0 false) [WRecv 1200 false; WRecv 1200 false; WSend 1280; WSend 1280; WSend 1280; WSend 1280; WSend 1280; WSend 1280; WSend 106] = false /\
+  wire_ok (WS 0 0 false) [WRecv 1200 false; WRecv 1200 false; WSend 1280; WSend 1280; WSend 1280; WSend 1280; WSend 1280; WSend 1280; WRecv 1200 true; WSend 1280] = true /\
+  ctrace_ev (cinit false 200000000) close_example_ops =
+    [WRecv 1200 false; WRecv 1200 false; WSend 1280; WSend 1280; WSend 1280; WSend 1280; WSend 1280; WSend 1280;
+     WRecv 37 false; WRecv 37 false; WRecv 37 false; WRecv 37 false].
+Proof. exact wire_ok_rejects. Qed.
+Print Assumptions C14_wire_ok_nonvacuous.
+
 (** Non-vacuity: a well-formed history that reaches the limit, is blocked, is unblocked by
     a 40-byte datagram, overshoots by one datagram, and is finally validated. *)
 Example C14_amplification_example :
@@ -185,6 +203,13 @@ Theorem C14_token_address_encoding : forall a b,
   encodeRemoteAddr a = encodeRemoteAddr b <-> same_addr a b.
 Proof. exact encode_same_addr. Qed.
 Print Assumptions C14_token_address_encoding.
+
+Example C14_token_address_families :
+  ~ same_addr ex_v4 ex_v4mapped /\ ~ same_addr ex_v4 ex_v6 /\ ~ same_addr ex_v4mapped ex_v6 /\
+  ~ same_addr ex_v4 ex_str /\ ~ same_addr ex_str ex_v6 /\ ~ same_addr ex_str (UDPAddr [49; 48; 46; 48; 46; 48; 46; 49] 0) /\
+  same_addr ex_v4 (UDPAddr [10; 0; 0; 1] 2000).
+Proof. exact address_families. Qed.
+Print Assumptions C14_token_address_families.
 
 (** A Retry token lives for tok_retryAgeFactor = 2 handshake idle timeouts. *)
 Theorem C14_retry_lifetime : forall h, maxRetryTokenAge h = 2 * h.
@@ -311,6 +336,25 @@ Theorem C14_token_invalid_handling :
     else if vs =? 1 then Out 2 false [] None 0 else Out 3 false dcid None 0.
 Proof. exact invalid_token_handling. Qed.
 Print Assumptions C14_token_invalid_handling.
+
+(** The complete decision table of handleInitialImpl's token branch: token absent or undecodable /
+    decodable and valid / invalid Retry token / invalid NEW_TOKEN token, against VerifySourceAddress. *)
+Theorem C14_token_decision_table :
+  forall (K : Type) (prot_open : K -> list Z -> list Z -> option (list Z))
+         (unmarshal : list Z -> option (rec * list Z))
+         k enc dcid a now maxTokenAge maxRetryAge vs,
+  handle K prot_open unmarshal k enc dcid a now maxTokenAge maxRetryAge vs =
+  match decode K prot_open unmarshal k enc with
+  | DTok t =>
+    if validateToken (Some t) a now maxTokenAge maxRetryAge
+    then Out 3 true (if t_isRetry t then t_odcid t else dcid)
+                    (if t_isRetry t then Some (t_rscid t) else None)
+                    (if t_isRetry t then 0 else t_rtt t)
+    else if t_isRetry t then Out 1 false [] None 0 else absent_outcome enc dcid vs
+  | _ => absent_outcome enc dcid vs
+  end.
+Proof. exact decision_table. Qed.
+Print Assumptions C14_token_decision_table.
 
 (** A connection is created with clientAddressValidated = true only from a token this key
     issued, for an address with the presenter's encoding, within its lifetime; a Retry
